@@ -208,7 +208,7 @@ class SourceFile:
         body = self.src[self.toks[s].start:self.toks[e].end]
         return f"fn {name}({params.strip()}) {between} {body}", self.toks[b0].start, self.toks[e].end
 
-    def arm_as_fn(self, it: Item, head: str, name: str, sig: str):
+    def arm_as_fn(self, it: Item, head: str, name: str, sig: str, locate_only: bool = False):
         """the match arm of fn item `it` whose pattern starts with the token sequence `head` (exactly one such arm
         with a block body), re-headed as `fn <name><sig> <body>`; `sig` = `(params) -> Ret` is given by the
         contract (the arm's free variables and pattern bindings become parameters).
@@ -240,10 +240,55 @@ class SourceFile:
         if len(hits) != 1:
             raise LostAnchor(f"arm `{head}`: {len(hits)} matching arms")
         k, bo, bc, blk = hits[0]
+        if locate_only:
+            return k, bo, bc, blk
         body = self.src[self.toks[bo].start:self.toks[bc].end]
         if not blk:
             body = "{ " + body + " }"
         return f"fn {name}{sig} {body}", self.toks[k].start, self.toks[bc].end
+
+    def outlined_fn(self, it: Item, arms):
+        """rule X7: the whole fn item `it` with the BODY of every match arm listed in `arms` -- (head, name, sig) of the
+        X4 cuts of this template that take their arm from this function -- replaced by a call of the function the arm
+        was re-headed as: `HEAD.. => { name(<the parameter names of sig>) }`.  The arm bodies themselves are verified
+        as those functions (rule X4, verbatim); what remains here is the dispatch and the code around the match.
+        Returns the text."""
+        s0, e0 = self.toks[it.t0].start, self.toks[it.t1].end
+        edits = []
+        for head, name, sig in arms:
+            k, bo, bc, blk = self.arm_as_fn(it, head, name, sig, locate_only=True)
+            depth, j, params = 0, 0, sig.strip()
+            assert params.startswith("(")
+            # parameter list = up to the matching `)`
+            for j, ch in enumerate(params):
+                depth += ch in "([<"
+                depth -= ch in ")]>"
+                if depth == 0:
+                    break
+            plist = params[1:j]
+            names, recv = [], ""
+            d2, cur = 0, ""
+            for ch in plist + ",":
+                if ch == "," and d2 == 0:
+                    if cur.strip():
+                        names.append(cur.strip())
+                    cur = ""
+                else:
+                    d2 += ch in "([<"
+                    d2 -= ch in ")]>"
+                    cur += ch
+            args = []
+            for n in names:
+                if n in ("&mut self", "&self", "self"):
+                    recv = "self."
+                else:
+                    args.append(n.split(":")[0].strip().removeprefix("mut "))
+            call = f"{recv}{name}({', '.join(args)})"
+            edits.append((self.toks[bo].start, self.toks[bc].end, "{ " + call + " }" if blk else call))
+        txt = self.src[s0:e0]
+        for a, b, t in sorted(edits, reverse=True):
+            txt = txt[:a - s0] + t + txt[b - s0:]
+        return txt
 
     def range_as_fn(self, it: Item, start: str, stop: str, name: str, sig: str, nth: int = 0, total: int = 0):
         """rule X5: the statements of fn item `it` from the literal `start` to the literal `stop` (both inclusive, each
